@@ -1471,6 +1471,11 @@ def frame_method(it, f, name, args, kwargs, node, fr):
         for k_, v_ in list(kwargs.items()):
             _lib.setitem(it, c, K(k_), v_, node, fr)
         return c
+    if name in ("add", "sub", "mul", "div", "truediv", "subtract", "multiply", "divide", "radd", "rmul") and len(args) == 1 \
+            and not any(k_ in kwargs for k_ in ("axis", "level", "fill_value")):
+        # frame.add(other) is frame + other: pandas pairs rows by label and columns by name (E17 applies)
+        opn_ = {"add": "add", "radd": "add", "sub": "sub", "subtract": "sub", "mul": "mul", "multiply": "mul", "rmul": "mul", "div": "div", "truediv": "div", "divide": "div"}[name]
+        return _lib.arith(it, opn_, f, args[0], node)
     if name in ("isna", "isnull", "notna", "notnull") and not args:
         # cell by cell: is the value missing?  (a table of flags with the same rows, labels and columns)
         c = f.clone()
